@@ -492,3 +492,9 @@ def check(ctx):
     check_traces(ctx, F)
     check_forwarding(ctx, F)
     check_protocol(ctx)
+    # R15.8: the simulator's Radius / KNearest read self.distances[start_index + index]; start_index is whatever the
+    # library's _parallel_predict passes, so it has to be the global position of the worker's first row
+    ctx.rule("R15.8", "_parallel_predict passes the lower bound of each worker's slice as start_index")
+    from .c05 import check_partition_sites
+    check_partition_sites(ctx, rule="R15.8", only=("BaseMAB._parallel_predict",
+                                                    "_NeighborsSimulator.calculate_distances"))
